@@ -186,3 +186,50 @@ func VH_C14_NoFrameAppendedBehindATornOne_sym() {
 // Whatever 16-bit ID a connected client was given - 0 and 0xFFFF included, the counter wraps after 65535 connections -
 // a transaction addressed to it is delivered to it, once, as its frame.
 func VH_C14_EveryHeldIDIsDeliverable() { cDeliverToHeldID() }
+
+// A connection whose first Write is held up: while it waits, another sender's transaction for the same client is
+// serialised and written in full; only then does the first Write take its bytes (a blocked socket write copies
+// its argument when the socket drains, not when the call is made).
+type vSlowConn struct {
+	srv    *Server
+	second *Transaction
+	writes [][]byte
+}
+
+func (c *vSlowConn) Read(p []byte) (int, error) { return 0, vErr{} }
+func (c *vSlowConn) Close() error               { return nil }
+func (c *vSlowConn) Write(p []byte) (int, error) {
+	if c.second != nil {
+		t := *c.second
+		c.second = nil
+		c.srv.sendTransaction(t) // the other sender runs to completion while this Write is held up
+	}
+	c.writes = append(c.writes, append([]byte(nil), p...))
+	return len(p), nil
+}
+
+// Two senders, one recipient, the first write slow: the client still receives two whole frames, one per
+// transaction - a frame handed to Write is not changed by what another sender serialises meanwhile.
+func VH_C14_SlowWriteKeepsFramesApart() {
+	srv, _ := NewServer()
+	conn := &vSlowConn{srv: srv}
+	cc := &ClientConn{Connection: conn, Server: srv}
+	srv.ClientMgr.Add(cc)
+	d1 := vBytesEach("first.data", 3)
+	d2 := vBytesEach("second.data", 3)
+	t1 := NewTransaction(TranChatMsg, cc.ID, NewField(FieldData, d1))
+	t1.ID = [4]byte{0, 0, 0, 1}
+	t2 := NewTransaction(TranServerMsg, cc.ID, NewField(FieldData, d2))
+	t2.ID = [4]byte{0, 0, 0, 2}
+	ref1 := refTransaction(&t1, [][]byte{refField(FieldData[0], FieldData[1], d1)})
+	ref2 := refTransaction(&t2, [][]byte{refField(FieldData[0], FieldData[1], d2)})
+	conn.second = &t2
+	err := srv.sendTransaction(t1)
+	vAssert("slow_send_ok", err == nil)
+	vAssert("two_writes_for_two_transactions", len(conn.writes) == 2)
+	if len(conn.writes) == 2 {
+		// the overtaking transaction arrives first, whole; the held-up one arrives after it, whole and unchanged
+		vAssertEqBytes("overtaking_frame_whole", conn.writes[0], ref2)
+		vAssertEqBytes("held_up_frame_unchanged", conn.writes[1], ref1)
+	}
+}
